@@ -519,7 +519,64 @@ def judge_debug_history(spec, rec):
     return {'parent_raised': raised, 'parent_returned': returned}
 
 
+
+# ----------------------------------------------------------------------------------------------------
+# long lists (exhaustive over the length): a SingleListGrader / ListGrader of n = 1..40 items answered completely, almost
+# completely, or with extra items - the averaged grade must stay inside [0, 1] and a completely right list is ok=True
+# (a seeded change averaged by adding rounded shares 1/n, which gives 1.0000000000000002 for n = 9, 11, 18, ...)
+
+def items_long_lists(tier):
+    for n in range(1, 41):
+        for ordered in (False, True):
+            for variant in ('all', 'one-wrong', 'one-extra', 'half'):
+                for container in ('single', 'list'):
+                    if container == 'list' and (n < 2 or n > 12 or variant == 'one-extra'):
+                        continue
+                    yield {'n': n, 'ordered': ordered, 'variant': variant, 'container': container}
+
+
+def judge_long_list(spec, rec):
+    import mitxgraders as mg
+    n, variant = spec['n'], spec['variant']
+    toks = ['tok%d' % k for k in range(n)]
+    sub = list(toks)
+    if variant == 'one-wrong':
+        sub[-1] = 'nope'
+    elif variant == 'one-extra':
+        sub = sub + ['surplus']
+    elif variant == 'half':
+        sub = [t if k % 2 == 0 else 'nope%d' % k for k, t in enumerate(sub)]
+    if spec['container'] == 'single':
+        if n == 1:
+            g = mg.SingleListGrader(answers=['tok0'], subgrader=mg.StringGrader(), ordered=spec['ordered'])
+        else:
+            g = mg.SingleListGrader(answers=toks, subgrader=mg.StringGrader(), ordered=spec['ordered'])
+        inp = ', '.join(sub)
+    else:
+        g = mg.ListGrader(answers=toks, subgraders=mg.StringGrader(), ordered=spec['ordered'])
+        inp = sub
+    st_, res = call(g, None, inp)
+    rec.calls()
+    if st_ != 'ok':
+        if isinstance(res, MITxError):
+            raise Violation('long-list/raised', 'a list of %d items raised %s: %s' % (n, type(res).__name__, str(res)[:150]))
+        raise res
+    info = {'cls': 'ListGrader' if spec['container'] == 'list' else 'SingleListGrader', 'pins': [], 'sentinels': set(),
+            'credit': False, 'classes': [], 'plain_string_leaves': False}
+    grades = check_result(res, inp, info, {'kw': {}}, False, rec)
+    if variant == 'all' and (any(x != 1 for x in grades) or any(e['ok'] is not True for e in entries(res))):
+        raise Violation('long-list/complete-list-not-fully-correct', 'all %d items right, yet the result is %r' % (n, res))
+    rec.cls('long-list/' + variant)
+    rec.nontrivial(n >= 6)
+    return {'n': n, 'grades': grades[:3]}
+
+
+def entries(res):
+    return res['input_list'] if 'input_list' in res else [res]
+
+
 PARTS = [
+    Part('long-lists', 'enum', judge_long_list, items=items_long_lists, exhaustive=True),
     Part('debug-history', 'enum', judge_debug_history, items=items_debug_history, exhaustive=True),
     Part('graders', 'hyp', judge, strategy=lambda tier: strat_cases(tier),
          budget={'quick': 15000, 'thorough': 450000}),
